@@ -442,6 +442,11 @@ namespace {
       for (size_t i = 0; i < fns.size(); ++i) {
         e.eval("def g" + std::to_string(i) + "(b0, b1, b2, n) { " + render_body(fns[i].at("body"), int(i)) + "}");
       }
+      std::vector<AST_NodePtr> tl_trees;
+      for (int j = 0; j < 2; ++j) {
+        e.eval("global TL" + std::to_string(j) + " = " + std::to_string(60 + j));
+        tl_trees.push_back(e.parse("t(TL" + std::to_string(j) + ")"));
+      }
       e.eval("def shownv(x) { if (is_type(x, \"Function\")) { t(-1) } else { t(x) } }");
       for (int j = 0; j < 2; ++j) {
         e.eval("def NV" + std::to_string(j) + "() { return -1 }; def rdnv" + std::to_string(j) + "() { shownv(NV" + std::to_string(j) + ") }");
@@ -462,7 +467,17 @@ namespace {
           const J &op = ops[oi];
           OpScope scope;
           std::string o;
-          if (op.at("k").str() == "mkglobal") {
+          if (op.at("k").str() == "decl_top") {
+            // (never generated: known finding C04-K3) a top-level local that shadows a global
+            o = eval_show(e, "var TL" + std::to_string(op.at("j").num() % 2) + " = " + std::to_string(op.at("tag").num()) + "; 0");
+          } else if (op.at("k").str() == "tree_eval") {
+            try {
+              e.eval(*tl_trees[size_t(op.at("j").num() % 2)]);
+              o = "=i:0";
+            } catch (...) {
+              o = "!" + describe_current_exception(&e);
+            }
+          } else if (op.at("k").str() == "mkglobal") {
             o = eval_show(e, "global NV" + std::to_string(op.at("j").num() % 2) + " = " + std::to_string(900 + op.at("j").num() % 2) + "; 0");
           } else if (op.at("k").str() == "rdnv") {
             o = eval_show(e, "rdnv" + std::to_string(op.at("j").num() % 2) + "(); 0");
@@ -521,6 +536,7 @@ namespace {
       std::vector<std::vector<int64_t>> want(size_t(T) + 1);
       std::vector<std::string> want_out(ops.size());
       bool nv_global[2] = {false, false};
+      std::vector<std::map<int64_t, int64_t>> tl_local(static_cast<size_t>(T)); // per actor: top-level locals shadowing TLj
       for (size_t oi = 0; oi < ops.size(); ++oi) {
         const J &op = ops[oi];
         const int a = int(op.at("a").num());
@@ -528,7 +544,14 @@ namespace {
           continue;
         }
         auto &tr = want[size_t(a) + 1];
-        if (op.at("k").str() == "mkglobal") {
+        if (op.at("k").str() == "decl_top") {
+          tl_local[size_t(a)][op.at("j").num() % 2] = op.at("tag").num();
+          want_out[oi] = "=i:0";
+        } else if (op.at("k").str() == "tree_eval") {
+          const int64_t j = op.at("j").num() % 2;
+          tr.push_back(tl_local[size_t(a)].count(j) ? tl_local[size_t(a)][j] : 60 + j);
+          want_out[oi] = "=i:0";
+        } else if (op.at("k").str() == "mkglobal") {
           nv_global[op.at("j").num() % 2] = true;
           want_out[oi] = "=i:0";
         } else if (op.at("k").str() == "rdnv") {
